@@ -559,6 +559,9 @@ class C07(Base):
             e = out["exc"] or {}
             last = [ln for ln in e.get("tb", "").split("\n") if ln.strip().startswith("File ")]
             frame = ""
+            if e.get("frame"):
+                frame = e["frame"]
+                last = []
             for ln in reversed(last):
                 if "/src/" in ln:
                     frame = ln.strip().split("/src/")[-1].split(",")[0].strip('"') + ":" + ln.strip().split(" in ")[-1]
@@ -978,6 +981,33 @@ class C10(Base):
 
 
 # ----------------------------------------------------------------------------------------------------------
+def c11_diagnose(cq, ct, n):
+    """Why could a query and its mirror twin disagree?  Compare what the workers built for each (tapped candidates):
+       selection-tie : the two candidate sets are exact mirror images, so only the choice among them differs
+       same-peaks    : same seed peaks (ref, strand, position) on both sides but different pairs -> chaining / conflict
+                       resolution is not mirror-symmetric
+       peaks-differ  : the seed peaks themselves differ -> correlation peak picking is not mirror-symmetric"""
+    def norm(cs, flip):
+        out = []
+        for c in cs:
+            row = c["row"]
+            pairs = sorted((p[1], (n + 1 - p[2]) if flip else p[2]) for s in row["segs"] for p in s["pos"] if p[0] == "P")
+            out.append((c["ref"], (not row["rev"]) if flip else row["rev"], tuple(pairs), round(row["conf"], 2)))
+        return sorted(out)
+
+    def peaks(cs, flip):
+        return sorted((c["ref"], (not c["row"]["rev"]) if flip else c["row"]["rev"],
+                       tuple(sorted(s["peak"] for s in c["row"]["segs"]))) for c in cs)
+
+    nq, nt = norm(cq, False), norm(ct, True)
+    if nq == nt:
+        best = max([x[3] for x in nq] or [0])
+        return "selection-tie" if sum(1 for x in nq if x[3] == best) > 1 else "selection-unique"
+    if peaks(cq, False) == peaks(ct, True):
+        return "same-segment-peaks"
+    return "segment-peaks-differ"
+
+
 class C11(Base):
     id = "C11"
     quick_worlds = 330
@@ -1022,21 +1052,28 @@ class C11(Base):
         recs = {}
         for r in parsed.get("out.xmap", {"records": []})["records"]:
             recs.setdefault(int(r["QryContigID"]), r)
+        round1 = collections.defaultdict(list)
+        for t in out.get("tapped", []):
+            if t["task"][0] == 1:
+                for c in t["cands"]:
+                    round1[c["qry"]].append(c)
         for qs, tid in case["twins"].items():
             q = int(qs)
             a, b = recs.get(q), recs.get(tid)
             rep.clauses["twin"] += 1
             n = len(maps.queries[q]["pos"])
+            diag = c11_diagnose(round1.get(q, []), round1.get(tid, []), n)
+            diag += "|sj=" + ("0" if float(case["config"].get("-sj", 1)) == 0 else "pos")
             if (a is None) != (b is None):
                 have = a or b
                 rep.add([O.V("record-iff", f"query {q} {'has' if a else 'has no'} first-pass record but its mirror image {tid} "
-                                           f"{'has' if b else 'has none'}", "record-iff", record=have["line"])], 0)
+                                           f"{'has' if b else 'has none'}", diag, record=have["line"])], 0)
                 continue
             if a is None:
                 rep.probes["twins_both_unaligned"] += 1
                 continue
             rep.probes["twins_both_aligned"] += 1
-            sig = f"ori={a['Orientation']}"
+            sig = diag
             if a["Orientation"] == b["Orientation"]:
                 rep.add([O.V("orientation", f"query {q} and mirror {tid} both reported '{a['Orientation']}'", sig,
                              record=a["line"], other=b["line"])], 0)
